@@ -316,6 +316,10 @@ def rules(ctx):
     # is in the algorithm; random slope of the LME is in the model) are written by to_dict and read back by the constructor (same rule as C12.R2)
     from .c12 import r2_hyperparameters
     r2_hyperparameters(ctx, rid="C20.R4", only_classes={"LMEModel", "ConstantModel"})
+    # ... with the precision they were saved with: the random effects are inv(Z'Z + C) Z' r with C = cov_re_unscaled_inv read from the model -
+    # rounded to single precision, a nearly singular C gives other random effects than the conditional means (same rule as C12.R9)
+    from .c12 import r9_stateless_parameters_not_narrowed
+    r9_stateless_parameters_not_narrowed(ctx, rid="C20.R5")
     ctx.trust("numpy nanmax / nanmean / argmax / fancy indexing semantics; statsmodels MixedLM results (fe_params, cov_re_unscaled)")
 
 
